@@ -5,9 +5,10 @@
 # never touched. Needs root. Results are merged into /verif/seeded/RESULTS.md. Development tooling, not a registered check.
 N=${1:-5}
 ROOT=/dev/shm/rv
+[ -n "$ONLY" ] && ROOT=/dev/shm/rv_only
 rm -rf $ROOT; mkdir -p $ROOT
 cd /verif || exit 2
-ls -d seeded/*/ > $ROOT/all.txt
+if [ -n "$ONLY" ]; then echo $ONLY | tr ' ' '\n' > $ROOT/all.txt; else ls -d seeded/*/ > $ROOT/all.txt; fi
 for k in $(seq 0 $((N-1))); do awk -v n=$N -v k=$k 'NR % n == k' $ROOT/all.txt | tr '\n' ' ' > $ROOT/list.$k; done
 for k in $(seq 0 $((N-1))); do
   (
@@ -22,6 +23,20 @@ for k in $(seq 0 $((N-1))); do
 done
 wait
 OUT=/verif/seeded/RESULTS.md
-echo "| seeded change | check | tier | exit | violations | first signature |" > $OUT; echo "|---|---|---|---|---|---|" >> $OUT
-cat $ROOT/*/verif/seeded/RESULTS.md | sort >> $OUT
-echo "merged $(grep -c '^| C' $OUT) results"
+if [ -n "$ONLY" ]; then
+  # re-run of a subset: replace the rows of these changes
+  cat $ROOT/*/verif/seeded/RESULTS.md | sort > $ROOT/new.txt
+  python3 - $OUT $ROOT/new.txt <<'PY'
+import sys
+out, new = sys.argv[1:]
+rows = {l.split('|')[1].strip(): l for l in open(new) if l.startswith('| C')}
+lines = [rows.pop(l.split('|')[1].strip(), l) if l.startswith('| C') else l for l in open(out)]
+lines += list(rows.values())
+open(out, 'w').writelines(lines)
+PY
+  echo "replaced $(wc -l < $ROOT/new.txt) rows"
+else
+  echo "| seeded change | check | tier | exit | violations | first signature |" > $OUT; echo "|---|---|---|---|---|---|" >> $OUT
+  cat $ROOT/*/verif/seeded/RESULTS.md | sort >> $OUT
+  echo "merged $(grep -c '^| C' $OUT) results"
+fi
